@@ -158,7 +158,7 @@ func c48DrawBits(rt *rapid.T, label string) string {
 	} else {
 		n = rapid.SampledFrom(c48Sizes).Draw(rt, label+"nb")
 	}
-	fill := rapid.SampledFrom([]string{"rand", "rand", "zeros", "ones", "one", "allbutone"}).Draw(rt, label+"fill")
+	fill := rapid.SampledFrom([]string{"rand", "rand", "zeros", "ones", "one", "one", "few", "allbutone"}).Draw(rt, label+"fill")
 	b := make([]byte, n)
 	for i := range b {
 		b[i] = '_'
@@ -178,9 +178,17 @@ func c48DrawBits(rt *rapid.T, label string) string {
 		if fill == "allbutone" && n > 0 {
 			b[rapid.IntRange(0, n-1).Draw(rt, label+"hole")] = '_'
 		}
-	case "one":
-		if n > 0 {
-			b[rapid.IntRange(0, n-1).Draw(rt, label+"pos")] = 'x'
+	case "one", "few":
+		k := 1
+		if fill == "few" {
+			k = rapid.IntRange(2, 3).Draw(rt, label+"fewk")
+		}
+		for ; k > 0 && n > 0; k-- {
+			if rapid.Bool().Draw(rt, label+"posedge") {
+				b[rapid.SampledFrom([]int{0, n - 1, max(0, n-2), min(n-1, 63), min(n-1, 64), (n - 1) &^ 63}).Draw(rt, label+"pose")] = 'x'
+			} else {
+				b[rapid.IntRange(0, n-1).Draw(rt, label+"pos")] = 'x'
+			}
 		}
 	}
 	return string(b)
@@ -208,7 +216,7 @@ func c48Draw(rt *rapid.T) c48Case {
 		regs[i] = c48Parse(s)
 	}
 	nops := rapid.IntRange(1, 14).Draw(rt, "nops")
-	kinds := []string{"set", "set", "get", "copy", "not", "not", "or", "or", "and", "and", "sub", "sub", "isempty", "isfull", "size", "pick", "bytes", "json", "amino", "update", "fromjson"}
+	kinds := []string{"set", "set", "get", "copy", "not", "not", "or", "or", "and", "and", "sub", "sub", "isempty", "isfull", "size", "pick", "pick", "bytes", "json", "amino", "update", "fromjson"}
 	for k := 0; k < nops; k++ {
 		o := c48Op{Op: rapid.SampledFrom(kinds).Draw(rt, "op")}
 		o.A = rapid.IntRange(0, c48NRegs-1).Draw(rt, "a")
@@ -427,9 +435,15 @@ func c48Exec(ctx *vk.Ctx, c c48Case) error {
 					trues = append(trues, i)
 				}
 			}
-			// PickRandom draws from the process-global generator: only membership is checked,
-			// which is an exact check when exactly one bit is set.
-			for rep := 0; rep < 3; rep++ {
+			// PickRandom draws from the process-global generator: every answer must be a true
+			// index, and when at most 3 bits are set 200 draws must produce each of them (the
+			// chance of missing one is below 3*(2/3)^200 ~ 1e-35, i.e. this is an enumeration).
+			reps := 3
+			if len(trues) >= 1 && len(trues) <= 3 {
+				reps = 200
+			}
+			seen := map[int]bool{}
+			for rep := 0; rep < reps; rep++ {
 				idx, ok := a.PickRandom()
 				if ok != (len(trues) > 0) {
 					return fail("PickRandom ok=%v, model has %d true bits", ok, len(trues))
@@ -440,6 +454,15 @@ func c48Exec(ctx *vk.Ctx, c c48Case) error {
 				if !ok && idx != 0 {
 					return fail("PickRandom returned (%d,false), documented (0,false)", idx)
 				}
+				seen[idx] = true
+			}
+			if reps == 200 {
+				for _, ti := range trues {
+					if !seen[ti] {
+						return fail("PickRandom never returned true index %d in 200 draws (true indices %v)", ti, trues)
+					}
+				}
+				ctx.Class("pick-enumerated")
 			}
 			ctx.ClassIf(len(trues) == 1, "pick-single")
 		case "bytes":
